@@ -15,6 +15,8 @@ CONSTANTS
   GuardedConn = TRUE
   PerCycleWG = TRUE
   SubscribeMayFail = TRUE
+  StartMayFail = FALSE
+  ResetOnFailedStart = TRUE
   Script <- MCScript
 VIEW view
 INVARIANTS MutualExclusion FifoPrefix AtMostOnce ExactlyOnce NoPanic AfterShutdown NoLateStart Accounted
